@@ -2064,7 +2064,7 @@ impl fmt::Display for Group<'_> {
             group_str.push_str(gc_str.trim_start());
           }
         } else {
-          group_str.push_str(&gc.to_string());
+          group_str.push_str(&gc_str);
         }
 
         if self.group_choices.len() > 2 && gc.group_entries.len() <= 3 {
